@@ -279,7 +279,11 @@ def norm_items(states, arith_mod, int_mod, seed, cap):
         if len(es) > cap_:
             # a huge class (e.g. everything equal to 0): the 5 smallest members and a seeded sample of the others
             es = sorted(es, key=lambda e: (len(json.dumps(e)), json.dumps(e)))
-            es = es[:5] + random.Random("%s/%s" % (seed, okey)).sample(es[5:], cap_ - 5)
+            rnd = random.Random("%s/%s" % (seed, okey))
+            rare = [e for e in es[5:] if has_op(e, ("-", "neg", "^", "o", "S"))]      # members with the operators the trees do not have
+            rest = [e for e in es[5:] if not has_op(e, ("-", "neg", "^", "o", "S"))]
+            k = min(len(rare), max((cap_ - 5) // 2, cap_ - 5 - len(rest)))
+            es = es[:5] + rnd.sample(rare, k) + rnd.sample(rest, min(len(rest), cap_ - 5 - k))
         if mode == "arith":
             # orbits with subtraction (ring or truncated) only come from the hand-picked seeds: always replayed
             must = any(has_op(e, ("-", "neg", "o")) for e in es)
